@@ -93,7 +93,8 @@ def self_param(shape):
 def make_f(shape, method):
     sh = (self_param(shape) + shape) if method else shape
     names = [p[0] for p in sh]
-    body = "return ('F', {%s})" % ', '.join('%r: %s' % (n, n) for n in names if n != 'self')
+    # a method also reports which object it ran on (instances may compare equal without being the same object)
+    body = "return ('F', {%s})" % ', '.join(['%r: %s' % (n, n) for n in names if n != 'self'] + (["'<self>': id(self)"] if method else []))
     ns = {}
     exec(compile('def f(%s):\n    %s\n' % (space.render(sh, dict((p[0], repr('d_' + p[0])) for p in sh if p[2])), body),
                  '<vf:c13>', 'exec'), ns)
@@ -112,6 +113,12 @@ def check_object(g, comp, shapes_in, expect_wrappers, st, case, base, tag, which
         ssig = sigtools.signature(g)
         isig = inspect.signature(g)
     except Exception as e:  # noqa
+        names_ = [nm for s_ in shapes_in for nm in space.names_of(s_) if nm not in ('args', 'kwargs')]
+        if isinstance(e, ValueError) and len(set(names_)) != len(names_):
+            # decorator and decorated function declare a parameter of the same name: refusing to report a signature is an
+            # answer (nothing is claimed then); reporting one is judged below like any other
+            st.inc('refused-on-name-collision')
+            return None
         st.violation('signature-retrieval-raises', case, dict(base, object=tag, error='%s: %s' % (type(e).__name__, e)),
                      {'object': tag, 'exception': type(e).__name__})
         return None
@@ -144,6 +151,11 @@ def check_object(g, comp, shapes_in, expect_wrappers, st, case, base, tag, which
                 feat = {'route': route, 'object': tag.split(':')[0]}
                 if 'self' in K and "__call__() got multiple values for argument 'self'" in r[1]:
                     feat = {'cause': 'keyword-named-self'}
+                names_ = [nm for s_ in shapes_in for nm in space.names_of(s_) if nm not in ('args', 'kwargs')]
+                if base.get('api') == 'decorator' and len(set(names_)) != len(names_) and str(sig).startswith('(*args'):
+                    # wrappers.decorator relies on discovery; where that gives up (here: decorator and decorated function
+                    # share a parameter name) the loose signature of the partial object is what is left
+                    feat = {'cause': 'decorator-falls-back-to-loose-signature-on-name-collision'}
                 st.violation('reported-signature-unsound', case,
                              dict(base, object=tag, route=route, reported=str(sig), call={'positionals': npos, 'keywords': K},
                                   error=r[1][:200]), feat)
@@ -237,14 +249,23 @@ def eval_stack(ns, api, kinds, fshape, placement, st):
         check_object(holder.m, compose(Ds, f), dshapes + [fshape], Ds, st, case, base, 'staticmethod:class')
         check_object(holder().m, compose(Ds, f), dshapes + [fshape], Ds, st, case, base, 'staticmethod:instance')
         return
-    holder = type('H', (object,), {'m': g, 'plain': f})
+    # instances compare equal by value; one was used before the one the checks run on
+    holder = type('H', (object,), {'m': g, 'plain': f, '__eq__': lambda self, other: type(other) is type(self),
+                                   '__hash__': lambda self: 11})
+    earlier = holder()
+    try:
+        earlier.m
+    except Exception:  # noqa: judged on the instance below
+        pass
     inst = holder()
     comp_bound = compose(Ds, inst.plain)
     bsig = check_object(inst.m, comp_bound, dshapes + [fshape], Ds, st, case, base, 'method:bound')
     # through the class: the first parameter (self) is still there
     full = self_param(fshape) + fshape
     usig = check_object(holder.m, compose(Ds, f), dshapes + [full], Ds, st, case, base, 'method:class')
-    if bsig is not None and usig is not None:
+    own_names = [nm for s_ in dshapes for nm in space.names_of(s_) if nm not in ('args', 'kwargs')]
+    collides = any(nm in space.names_of(fshape) for nm in own_names)
+    if bsig is not None and usig is not None and not collides:
         up = list(usig.parameters.values())
         bp = list(bsig.parameters.values())
         # binding removes exactly the first parameter of the decorated function
@@ -401,6 +422,8 @@ def work_items(tier):
                 if len(set(seq)) < r:
                     for placement in ('function', 'method', 'staticmethod'):
                         items.append(('stackreps3', api, tuple('none@%d' % i for i in seq), placement, 0, 0))
+    # the decorated function has a keyword-only parameter named like the decorator's own
+    items.append(('collide', None, None, None, 0, 0))
     # a classic functools.wraps decorator between two sigtools wrappers
     for api in ('decorator', 'wrapper_decorator'):
         for placement in ('function', 'method'):
@@ -439,6 +462,15 @@ def shard(tier, sh):
                 _, api, kinds, placement, _, _ = item
                 for fshape in reps3:
                     eval_stack(ns, api, kinds, fshape, placement, st)
+            elif kind == 'collide':
+                from vf.space import KWO as _KWO, POK as _POK
+                for api in ('decorator', 'wrapper_decorator'):
+                    for dk in ('kwo', 'kwoopt', 'pok'):
+                        for opt in (False, True):
+                            for fshape in ((('x', _POK, False), ('d1', _KWO, opt)), (('d1', _KWO, opt),),
+                                           (('x', _POK, False), ('d1', _POK, opt))):
+                                for placement in ('function', 'method'):
+                                    eval_stack(ns, api, (dk,), fshape, placement, st)
             elif kind == 'forwarding':
                 for fshape in fs:
                     pos = space.positionals(fshape)
